@@ -51,6 +51,10 @@ def observe(calc, q):
         return arr_digest([calc.pressure_base.bulk_modulus_voigt_reuss_hill])
     if q == "tp_vp":
         return arr_digest([calc.pressure_base.primary_velocities])
+    if q == "tp_modulus_adiabatic":
+        return arr_digest([calc.pressure_base.modulus_adiabatic[k] for k in keys])
+    if q == "tp_modulus_isothermal":
+        return arr_digest([calc.pressure_base.modulus_isothermal[k] for k in keys])
     if q == "tp_volumes":
         return arr_digest([calc.pressure_base.volumes])
     if q == "compliances":
